@@ -20,9 +20,13 @@ pub fn run_tokens(args: &Args, mut out: Out) {
     //      5 = the newest held token is dropped while its owner unwinds from a panic (how a connection task that
     //          panics returns its slot), 6 = the oldest held token is dropped on another thread
     let mut sid = 0u64;
-    for size in 1..=3usize {
+    let mut hangs = 0u32; // blocking takes that never returned (a unit was lost): after 25 of them the point is made
+    'all: for size in 1..=3usize {
         for d in 1..=depth {
             for code in 0..7usize.pow(d as u32) {
+                if hangs >= 25 {
+                    break 'all;
+                }
                 sid += 1;
                 if !out.wants(sid) {
                     continue;
@@ -92,7 +96,7 @@ pub fn run_tokens(args: &Args, mut out: Out) {
                                     let t = owned.wait_token();
                                     let _ = tx.send((owned, t));
                                 });
-                                match rx.recv_timeout(Duration::from_secs(3)) {
+                                match rx.recv_timeout(Duration::from_millis(if hangs == 0 { 3000 } else { 300 })) {
                                     Ok((back, t)) => {
                                         set = Some(back);
                                         held.push(t);
@@ -101,6 +105,7 @@ pub fn run_tokens(args: &Args, mut out: Out) {
                                     Err(_) => {
                                         steps.push(json!({"op":"take","ok":false,"had":false}));
                                         hung = true;
+                                        hangs += 1;
                                     }
                                 }
                             } else {
@@ -173,6 +178,7 @@ fn wait_until(deadline_s: u64, f: impl Fn() -> bool) -> bool {
     let deadline = Instant::now() + Duration::from_secs(deadline_s);
     while !f() {
         if Instant::now() > deadline {
+            missed_deadline();
             return false;
         }
         std::thread::sleep(Duration::from_micros(500));
@@ -202,6 +208,9 @@ pub fn run_stress(args: &Args, mut out: Out) {
         let mut rr = StdRng::seed_from_u64(r.gen());
         if !out.wants(sid) {
             continue;
+        }
+        if give_up() {
+            break;
         }
         let r = &mut rr;
         let max: usize = r.gen_range(1..=4);
@@ -462,9 +471,13 @@ pub fn run_permit_race(args: &Args, mut out: Out) {
     let executor = safina::executor::Executor::new(loops.max(2), 2).unwrap();
     let mut missed = 0u64;
     let mut handled = 0u64;
+    let mut stuck = 0u64; // trials in which an accept loop had not left 2 s after the revocation returned
     for t in 1..=trials {
         if !out.wants(t) {
             continue;
+        }
+        if stuck >= 8 {
+            break; // the point is made; every further trial would cost another 2 s
         }
         let nloops = if t <= full { 1 } else { loops };
         servlin::verif::start();
@@ -506,7 +519,10 @@ pub fn run_permit_race(args: &Args, mut out: Out) {
         }
         revoker.join().unwrap();
         // the revocation has returned; wait until every accept loop has left
-        wait_until(2, || count("AccRevokedExit") + count("AccRevokedInWait") + count("AccRevokedAfterAccept") >= nloops);
+        let left = wait_until(2, || count("AccRevokedExit") + count("AccRevokedInWait") + count("AccRevokedAfterAccept") >= nloops);
+        if !left {
+            stuck += 1;
+        }
         std::thread::sleep(Duration::from_micros(100));
         let taken: Vec<(permit::Permit, Token, u16, async_net::TcpStream)> = std::mem::take(&mut *slot.lock().unwrap());
         let mut miss = false;
@@ -534,7 +550,10 @@ pub fn run_permit_race(args: &Args, mut out: Out) {
         if miss {
             missed += 1;
         }
-        if t <= full {
+        if !left {
+            out.ev(t, "Reset", json!({"max": 1, "clients": nloops, "refill": false}));
+            out.ev(t, "StopTimeout", json!({"a": 0, "b": 0}));
+        } else if t <= full {
             out.ev(t, "Reset", json!({"max": 1, "clients": 1, "refill": false}));
             for rec in recs {
                 out.ev(t, rec.kind, json!({"a": rec.a, "b": rec.b, "seq": rec.seq}));
